@@ -288,13 +288,47 @@ class Engine:
             if r is True:
                 st.zone.bottom = True
                 return False
+            # remember excluded constants of a symbol: they matter again when a bound reaches them
+            for (x, y) in ((a, b), (b, a)):
+                if x.sym is not None and y.sym is None:
+                    key = ('nes', x.sym)
+                    st.vn[key] = st.vn.get(key, frozenset()) | {y.k - x.k}
             # tighten at a bound
+            ok = True
             if self.prove_le(st, a, b) is True:        # a <= b and a != b -> a < b
-                return self.assume_cmp(st, 'lt', a, b)
-            if self.prove_le(st, b, a) is True:
-                return self.assume_cmp(st, 'lt', b, a)
-            return True
+                ok = self.assume_cmp(st, 'lt', a, b)
+            elif self.prove_le(st, b, a) is True:
+                ok = self.assume_cmp(st, 'lt', b, a)
+            if ok:
+                for x in (a, b):
+                    if x.sym is not None:
+                        ok = self._apply_nes(st, x.sym) and ok
+            return ok
         raise ValueError(op)
+
+    def _apply_nes(self, st, sym):
+        """move the bounds of a symbol past the constants it is known to differ from"""
+        nes = st.vn.get(('nes', sym))
+        if not nes:
+            return True
+        v = NumV(sym, 0, 'u32')
+        for _ in range(len(nes) + 1):
+            lo, hi = self.bounds(st, v)
+            if lo > hi:
+                st.zone.bottom = True
+                return False
+            moved = False
+            if lo in nes:
+                if not self.assume_le(st, NumV(None, lo + 1, 'u32'), v):
+                    return False
+                moved = True
+            elif hi in nes:
+                if not self.assume_le(st, v, NumV(None, hi - 1, 'u32')):
+                    return False
+                moved = True
+            if not moved:
+                break
+        return True
 
     NEG = {'lt': 'ge', 'le': 'gt', 'eq': 'ne', 'ne': 'eq', 'gt': 'le', 'ge': 'lt'}
 
